@@ -137,7 +137,7 @@ def _ttl_string(lex, st):
         elif ch == "\n":
             out.append("\n" if len(q) == 3 and st.random() < 0.7 else "\\n")
         elif ch == "\r":
-            out.append("\\r")
+            out.append("\r" if len(q) == 3 and st.random() < 0.5 else "\\r")  # a raw CR is legal inside a long string
         elif ch == "\t":
             out.append(st.choice(["\\t", "\t"]))
         elif ch == "\b":
